@@ -7,6 +7,10 @@ Fault enumeration (engine E2).  The injector (mc/props/c16_faults.py, bare zip +
                  del-part(part)       every reachable part deleted (its .rels item stays: orphan item)
                  del-rels(part|pkg)   every existing .rels item deleted (incl. /_rels/.rels)
                  ct-flip(entry)       every Default/Override: Extension / PartName case-swapped
+                 name-flip(part)      the symmetric irregularity on the part NAME: Default-typed part -> extension
+                                      of the name case-swapped (image1.PNG), Override-typed part -> whole name
+                                      case-swapped; member, .rels item and all relationship targets follow,
+                                      [Content_Types].xml is left exactly as it was  (a base, like rename)
                  ct-unknown(entry)    every Default/Override: ContentType -> an unknown type
                  extra(variant)       unreferenced member: declared / undeclared / orphan .rels item / zip dir entry
                  no-core              core-properties part and its relationship removed
@@ -74,7 +78,10 @@ RULE = ("every single fault at every applicable location of every corpus deck (+
         "main types, missing [Content_Types].xml, every slide-part rename (permutations of <=4 slides, with and "
         "without a gap), directory form, truncation at 2m+4 offsets x {path,stream}, 3 non-zip inputs x "
         "{path,stream}, missing file; and every unordered pair of those on the smallest decks (member x member, "
-        "member x dir, rename x member, rename x dir, member x truncation, rename x truncation). A case is "
+        "member x dir, rename x member, rename x dir, member x truncation, rename x truncation, name-flip x dir; "
+        "thorough also name-flip x member). Single faults also include, per reachable part, the case flip of "
+        "the part NAME against an unchanged declaration (extension for Default-typed, whole name for "
+        "Override-typed parts). A case is "
         "non-trivial when it carries at least one injected irregularity; cases are distinct by construction "
         "(deck, base, fault locations, form); fault-free baselines are evaluated but not counted.")
 ASSUMPTIONS = [
@@ -368,6 +375,8 @@ def run_case(case, independent=False):
         ad = already_dangling(ref, reach)
         name_map = {}
         slides_in = ref_slides(ref) if case.get("rename") else None
+        if slides_in is not None and not (set(case["rename"].values()) & {pn for pn, _ in slides_in}):
+            slides_in = None  # the rename does not touch a slide part: prs.slides is not part of the case
         if slides_in is not None:
             try:
                 got = [(str(s.part.partname), s.part.blob) for s in prs.slides]
@@ -543,6 +552,10 @@ def single_items(deck):
         items.append(_case(deck, rename=mapping, rename_label=label))
         kinds["rename"] += 1
         n += 1
+    for label, mapping in F.enum_name_flips(members):
+        items.append(_case(deck, rename=mapping, rename_label=label))
+        kinds["name-flip:" + F.FLIP_LABELS[label]] += 1
+        n += 1
     items.append(dict(_case(deck), trunc_all=True))
     m_entries = len(members)
     n += 2 * F.n_trunc_points(m_entries)
@@ -561,7 +574,7 @@ def single_items(deck):
     return items, n, kinds, len(mf)
 
 
-def pair_items(deck):
+def pair_items(deck, thorough=False):
     """-> (items, expected evaluations, subsumed pair count)"""
     zbytes, members = F.base_members(deck, None)
     mf = F.enum_member_faults(members)
@@ -581,7 +594,7 @@ def pair_items(deck):
         items.append(_case(deck, [f], form="dir"))
         n += 1
     for label, mapping in F.enum_renames(members):
-        _zb, rmembers = F.base_members(deck, mapping)
+        _zb, rmembers = F.base_members(deck, mapping, label)
         rf = F.enum_member_faults(rmembers)
         if len(rf) != len(mf):
             raise HarnessError("rename changed the fault space of %s: %d != %d" % (deck, len(rf), len(mf)))
@@ -592,6 +605,18 @@ def pair_items(deck):
         n += 1
         items.append(dict(_case(deck, rename=mapping, rename_label=label), trunc_all=True))
         n += 2 * F.n_trunc_points(len(rmembers))
+    for label, mapping in F.enum_name_flips(members):
+        items.append(_case(deck, rename=mapping, rename_label=label, form="dir"))
+        n += 1
+        if not thorough:
+            continue
+        _zb, rmembers = F.base_members(deck, mapping, label)
+        rf = F.enum_member_faults(rmembers)
+        if len(rf) != len(mf):
+            raise HarnessError("name flip changed the fault space of %s: %d != %d" % (deck, len(rf), len(mf)))
+        for f in rf:
+            items.append(_case(deck, [f], rename=mapping, rename_label=label))
+            n += 1
     return items, n, subsumed
 
 
@@ -621,7 +646,7 @@ def run(ctx):
     n_single = expected
     subsumed = 0
     for deck in pair_decks:
-        its, n, s = pair_items(deck)
+        its, n, s = pair_items(deck, ctx.thorough)
         its[len(its) // 3]["sample"] = True
         items += its
         expected += n
